@@ -302,11 +302,8 @@ def check_case(case):
         for run_no in range(1, last_run + 1):
             fl = {f["site"]: f["kind"] for f in faults if f["run"] == run_no}
             plan = sf.Plan(fl, out, tmp)
-            plan.lenient = True
-            try:
-                exc = _run(sc, plan, target, memo)
-            except Exception as e:  # noqa: BLE001 - cannot happen: _run returns Exceptions
-                raise
+            plan.lenient = True  # replays on a tree whose numbering moved: unsupported kind -> "error"
+            exc = _run(sc, plan, target, memo)
             fired = plan.fired
             if fired:
                 idx, kind, label = fired[0]
